@@ -375,6 +375,13 @@ def _prefilter(tier):
             lambda s0, l0, g, l1, fs, fl, hi, qs, qe: pre(s0, l0, g, l1, fs, fl, hi, qs, qe) and fs == 0 and fl == 1, budget=900, cost=120, stubs=dict(bins="smt"),
             examples=[dict(e, fs=0, fl=1) for e in exs], desc=desc % " is", bounds="1 gene with 2 single-exon isoforms, unbounded symbolic coordinates and query")
     out.extend(split_cubes(o, {"qs_le_gene": lambda **kw: kw["qs"] <= kw["s0"], "qe_ge_gene": lambda **kw: kw["qe"] >= kw["s0"] + kw["l0"] + kw["g"] + kw["l1"]}))
+    if tier == "quick":
+        # the straddling situation (query strictly inside the gene's span, feature collection starting after the gene): one cube of the thorough obligation
+        o = Obl("prefilter_exact_bins_strict_straddle", qfn(True), dict(P),
+                lambda s0, l0, g, l1, fs, fl, hi, qs, qe: pre(s0, l0, g, l1, fs, fl, hi, qs, qe) and fs >= s0 and qs > s0 and qe < s0 + l0 + g + l1,
+                budget=900, cost=200, stubs=dict(bins="smt"), examples=[exs[1]],
+                desc=desc % " straddling the query and a feature collection are", bounds="as prefilter_exact_bins_strict, query strictly inside the gene's span")
+        out.append(o)
     if tier != "quick":
         o = Obl("prefilter_exact_bins_strict", qfn(True), dict(P), pre, budget=1800, cost=400, stubs=dict(bins="smt"), examples=exs,
                 desc=desc % " and a feature collection are", bounds="1 gene with 2 single-exon isoforms + 1 feature collection, unbounded symbolic coordinates and query")
@@ -394,6 +401,15 @@ def _wiring(tier):
         b = obj.bin
         if isinstance(b, tuple):  # symbolic run: recording stub
             return AND(b[0] == "BIN", b[1] == s, b[2] == e, b[3] == "bed", b[4] is True)
+        from vlib.sym import HAVE_CH
+
+        if HAVE_CH:
+            from vlib import stubs
+
+            if stubs.INSTALLED.get("bins") == "smt":  # symbolic run on the exact bin terms: the stored bin is the bin of the object's own span
+                from vlib.binstub import bins_smt
+
+                return b == bins_smt(s, e, "bed", True)
         return b == _real_bins()(s, e, fmt="bed")
 
     def tx(**kw):
@@ -482,4 +498,8 @@ def _wiring(tier):
         out.append(Obl("wiring_" + nm, f, dict(params), pre, budget=120, cost=4, examples=ex,
                        desc="%s stores bin == bins(start, end, fmt='bed') of its own chromosome span" % nm,
                        bounds="2 blocks/children, unbounded coordinates", stubs=dict(bins="record")))
+        out.append(Obl("wiring_exact_" + nm, f, dict(params), pre, budget=300, cost=20, examples=ex,
+                       desc="%s: stored bin == bin of its own chromosome span, compared on the exact bin terms (whatever way it is computed: a bin derived from "
+                            "the members' bins or from other coordinates differs for some coordinates, which the solver finds and the real bins() replays)" % nm,
+                       bounds="2 blocks/children, unbounded coordinates", stubs=dict(bins="smt")))
     return out
